@@ -458,6 +458,8 @@ theorem parseSizes_spec {v : Val} {ys : List Int} (h : parseSizes v = .ok ys) : 
   simp only [parseSizes, bind, Except.bind] at h
   split at h
   · cases h
+  split at h
+  · cases h
   · split at h
     · cases h
     · rename_i zs _
@@ -471,6 +473,83 @@ theorem parseSizes_spec {v : Val} {ys : List Int} (h : parseSizes v = .ok ys) : 
         apply hany
         simp only [List.any_eq_true, decide_eq_true_eq]
         exact ⟨s, hs, by omega⟩
+
+/-- fix 93797fc: accepted lattice sizes are not empty -/
+theorem parseSizes_ne_nil {v : Val} {ys : List Int} (h : parseSizes v = .ok ys) : ys ≠ [] := by
+  simp only [parseSizes, bind, Except.bind] at h
+  split at h
+  · cases h
+  rename_i ht
+  split at h
+  · cases h
+  · rename_i xs hxs
+    split at h
+    · cases h
+    · rename_i zs hzs
+      split at h
+      · cases h
+      · simp only [pure, Except.pure, Except.ok.injEq] at h
+        subst h
+        have hl := mapE_length hzs
+        have hne : xs ≠ [] := by
+          cases v with
+          | a x => cases x <;> simp [Val.iter, te, oe] at hxs
+          | s t ws =>
+            simp only [Val.iter, Except.ok.injEq] at hxs
+            subst hxs
+            simpa [Val.truthy] using ht
+        intro e
+        rw [e] at hl
+        exact hne (List.eq_nil_of_length_eq_zero (by simpa using hl.symm))
+
+/-- the sizes of an accepted lattice configuration are the parsed `lattice_sizes` -/
+theorem verifyLattice_sizes_eq {r : RawLatFull} {c : LatCfg} (h : verifyLattice r = .ok c) :
+    parseSizes r.sizes = .ok c.sizes := by
+  simp only [verifyLattice, bind, Except.bind] at h
+  split at h
+  · cases h
+  · rename_i sizes hs
+    split at h
+    · cases h
+    · split at h
+      · cases h
+      · split at h
+        · cases h
+        · split at h
+          · cases h
+          · split at h
+            · cases h
+            · split at h
+              · cases h
+              · split at h
+                · cases h
+                · split at h
+                  · cases h
+                  · split at h
+                    · cases h
+                    · split at h
+                      · cases h
+                      · split at h
+                        · cases h
+                        · simp only [pure, Except.pure, Except.ok.injEq] at h
+                          subst h
+                          exact hs
+
+/-- **C16-T1 (lattice sizes)**: whatever `lattice_lib.verify_hyperparameters` accepts has at least
+one dimension (fix 93797fc — an empty lattice used to be accepted) and every size is at least 2;
+the same for the natural-number sizes `c.toLat.sizes` of the projection / evaluation models. -/
+theorem verifyLattice_sizes {r : RawLatFull} {c : LatCfg} (h : verifyLattice r = .ok c) :
+    (c.sizes ≠ [] ∧ ∀ s ∈ c.sizes, 2 ≤ s) ∧ (c.toLat.sizes ≠ [] ∧ ∀ n ∈ c.toLat.sizes, 2 ≤ n) := by
+  have hs := verifyLattice_sizes_eq h
+  have h1 := parseSizes_ne_nil hs
+  have h2 := parseSizes_spec hs
+  refine ⟨⟨h1, h2⟩, ?_, ?_⟩
+  · simp only [LatCfg.toLat, ne_eq, List.map_eq_nil_iff]; exact h1
+  · intro n hn
+    simp only [LatCfg.toLat] at hn
+    obtain ⟨z, hz, rfl⟩ := List.mem_map.mp hn
+    have := h2 z hz
+    omega
 
 theorem lenNe_false {o : Option (List Atom)} {n : Nat} (h : lenNe o n = false) :
     ∀ l, o = some l → l.length = n := by
